@@ -475,6 +475,9 @@ func (ex *Exec) wireCopy(v Value, t types.Type, failed **smt.Term) Value {
 		*failed = smt.Or(*failed, smt.Lt(b.I, smt.I64(0)))
 		return BigVal{I: b.I, G: b.G, E: b.E, Factors: b.Factors}
 	}
+	if n, ok := types.Unalias(t).(*types.Named); ok && n.Obj().Pkg() != nil && n.Obj().Pkg().Path() == "time" && n.Obj().Name() == "Time" {
+		return v // time.Time travels as RFC 3339 text: value preserving
+	}
 	if n, ok := types.Unalias(t).(*types.Named); ok && n.Obj().Pkg() != nil && n.Obj().Name() == "Hash" && strings.HasSuffix(n.Obj().Pkg().Path(), "/revocation") {
 		// revocation.Hash travels as the text form of its bytes: value preserving
 		return ex.wireCopy(v, t.Underlying(), failed)
@@ -554,9 +557,13 @@ func (ex *Exec) wireCopy(v Value, t types.Type, failed **smt.Term) Value {
 }
 
 func (ex *Exec) primExt(fn *ssa.Function, args []Value) (Value, bool) {
-	switch fn.Name() {
-	case "vpxWireProofD", "vpxWire":
-		// (in *T) (*T, bool): the value as it arrives after a JSON round trip; false if encoding fails
+	name := fn.Name()
+	if strings.HasPrefix(name, "vpxWire") {
+		name = "vpxWire"
+	}
+	switch name {
+	case "vpxWire":
+		// vpxWire<Type>(in *T) (*T, bool): the value as it arrives after a JSON round trip; false if encoding fails
 		failed := smt.False
 		out := ex.wireCopy(args[0], fn.Signature.Params().At(0).Type(), &failed)
 		ex.stubs["JSON transport is a structural copy that follows the struct tags of the current source (fields tagged json:\"-\" and unexported fields do not travel; negative big integers are refused); byte-level encoding is not modelled"] = true
